@@ -140,6 +140,27 @@ def run_case(case, ctx):
                             "epoch-permutation", ("rust-epoch-not-permutation",),
                             f"{what}: epoch {e} is {block}, not a permutation "
                             f"of the {n} examples")
+            if iface == "tfdata" and shuffle == 0 and len(ids) == want_len:
+                # iterating the SAME returned tf.data object again must start
+                # the periodic stream again
+                ok, obj = oracles.guarded(
+                    ctx, "endless", ("iteration-raised", iface), what,
+                    lambda: dsops.tfdata_object(b.h.ds, split, **opts))
+                if ok:
+                    for again in (1, 2):
+                        ok2, got = oracles.guarded(
+                            ctx, "endless", ("iteration-raised", iface),
+                            what + f" (object pass {again})",
+                            lambda: dsops.iterate_tfdata_object(
+                                obj[0], obj[1], want_len))
+                        if ok2 and [dsops.ex_id_of(e) for e in got] != ids:
+                            ctx.fail(
+                                "periodic", ("re-iterated-object-differs",
+                                             iface),
+                                f"{what}: pass {again} over the same "
+                                f"tf.data object yields "
+                                f"{[dsops.ex_id_of(e) for e in got][:12]}, a "
+                                f"fresh one {ids[:12]}")
             ctx.count("prefixes")
             ctx.label("iface=" + iface)
             if s >= 2:
